@@ -125,6 +125,9 @@ def bounded(ctx, b):
         # a second language whose cues start before the first language's
         CaptionSet({"en-US": CaptionList([Caption(2000000, 3000000, [T("en one")]), Caption(5000000, 6000000, [T("en two")]), Caption(8000000, 9000000, [T("en three")])]),
                     "fr-FR": CaptionList([Caption(1000000, 1500000, [T("fr un")]), Caption(4000000, 4500000, [T("fr deux")]), Caption(10000000, 11000000, [T("fr trois")])])}),
+        # ... with cue times that coincide with the first language's
+        CaptionSet({"en-US": CaptionList([Caption(5000000, 7000000, [T("en one")]), Caption(10000000, 12000000, [T("en two")]), Caption(15000000, 17000000, [T("en three")])]),
+                    "fr-FR": CaptionList([Caption(1000000, 3000000, [T("fr un")]), Caption(5000000, 7000000, [T("fr deux")]), Caption(10000000, 12000000, [T("fr trois")])])}),
         # ... and contiguous cues (each ends where the next begins), the earlier language listed second
         CaptionSet({"en-US": CaptionList([Caption(2000000, 5000000, [T("en one")]), Caption(5000000, 8000000, [T("en two")]), Caption(8000000, 9000000, [T("en three")])]),
                     "fr-FR": CaptionList([Caption(1000000, 4000000, [T("fr un")]), Caption(4000000, 10000000, [T("fr deux")]), Caption(10000000, 11000000, [T("fr trois")])])}),
